@@ -996,6 +996,12 @@ func (env *Env) callExpr(x *ECall) Val {
 			return c.loadStruct(env.cur, t, v.F[1].T)
 		}
 		return sc(v.F[1].T, t)
+	case "arr":
+		v := Val{K: VArr}
+		for _, a := range x.Args {
+			v.F = append(v.F, env.eval(a))
+		}
+		return v
 	case "mk":
 		t := env.resolveType(x.Args[0].(*EType).T)
 		s, ok := under(t).(*types.Struct)
@@ -1005,6 +1011,17 @@ func (env *Env) callExpr(x *ECall) Val {
 		v := Val{K: VStruct, Typ: t}
 		for i := 0; i < s.NumFields(); i++ {
 			f := env.typed(env.eval(x.Args[i+1]), s.Field(i).Type())
+			if f.K == VArr {
+				at, ok := under(s.Field(i).Type()).(*types.Array)
+				if !ok || int(at.Len()) != len(f.F) {
+					sfail("arr() does not fit field %s", s.Field(i).Name())
+				}
+				f.Typ = s.Field(i).Type()
+				for j := range f.F {
+					f.F[j] = env.typed(f.F[j], at.Elem())
+					f.F[j].Typ = at.Elem()
+				}
+			}
 			if f.K == VScalar && f.Typ == types.Typ[types.UntypedNil] {
 				f = c.zeroVal(s.Field(i).Type())
 			}
